@@ -26,11 +26,13 @@ const EscapeLike = `\u003c\u003e\u0026 \n \" \\u2028 \ud800`
 var KeyClasses = []string{"k", "", `q"\`, "\xff\n", "level", "message"}
 
 var (
-	T0    = time.Time{}
-	TEp   = time.Unix(0, 0).UTC()
-	TFix  = time.Date(2021, 3, 4, 5, 6, 7, 123456789, time.FixedZone("X", 3*3600+1800))
-	TNeg  = time.Unix(-1, -1).UTC()
-	TNow  = time.Date(2024, 2, 29, 23, 59, 59, 999999999, time.UTC)
+	T0   = time.Time{}
+	TEp  = time.Unix(0, 0).UTC()
+	TFix = time.Date(2021, 3, 4, 5, 6, 7, 123456789, time.FixedZone("X", 3*3600+1800))
+	TNeg = time.Unix(-1, -1).UTC()
+	TNow = time.Date(2024, 2, 29, 23, 59, 59, 999999999, time.UTC)
+	// a zone NAME that needs escaping (layouts that print MST carry it into the output)
+	TZone = time.Date(2021, 3, 4, 5, 6, 7, 0, time.FixedZone("q\"z\\\n", 3600))
 	IPv4  = net.IP{192, 168, 0, 1}
 	IPv4m = net.ParseIP("10.0.0.1") // 16-byte form
 	IPv6  = net.ParseIP("2001:db8::1")
@@ -135,9 +137,9 @@ func ClassValues(m string) []interface{} {
 	case "Floats64":
 		return []interface{}{[]float64(nil), []float64{}, []float64{math.NaN(), math.Inf(-1)}, []float64{1e-7, 1e21, 0.1, float64(float32(0.1))}}
 	case "Time":
-		return []interface{}{T0, TEp, TFix, TNeg}
+		return []interface{}{T0, TEp, TFix, TNeg, TZone}
 	case "Times":
-		return []interface{}{[]time.Time(nil), []time.Time{}, []time.Time{TFix}, []time.Time{TEp, TFix}}
+		return []interface{}{[]time.Time(nil), []time.Time{}, []time.Time{TFix}, []time.Time{TEp, TFix}, []time.Time{TZone, TZone}}
 	case "Dur":
 		return []interface{}{time.Duration(0), time.Millisecond + 1, -time.Second, time.Duration(math.MaxInt64), time.Duration(1500) * time.Microsecond}
 	case "Durs":
